@@ -428,7 +428,7 @@ async def _reopen(w, mb):
         await w.cmd("A", f"SELECT {mb}", settle=0)
 
 
-async def run_cases(w, cases, seed):
+async def run_cases(w, cases, seed, history=False):
     """cases: [{"tag", "struct", "data" (bytes), "ways": subset of deliver/append/copy,
     "domain": {...}}].  Returns the list of observation records."""
     rng = random.Random(seed)
@@ -436,6 +436,7 @@ async def run_cases(w, cases, seed):
     await w.cmd("A", "CREATE src", settle=0)
     await w.cmd("A", "CREATE dst", settle=0)
     out = []
+    kept = []     # history: (seq number in src, base, how, case) of everything stored in src
     for c in cases:
         data, struct = c["data"], c["struct"]
         sent = item(data)
@@ -447,7 +448,9 @@ async def run_cases(w, cases, seed):
                 "cls": c.get("cls", struct)}
         stored = []   # (how, seq number in src)
         await _reopen(w, "src")
-        await w.cmd("A", "SELECT src", settle=0)
+        box = w.sessions["A"].handler.mbox
+        if box is None or box.name != "src":       # (a client that keeps SELECTing its selected mailbox is dismissed)
+            await w.cmd("A", "SELECT src", settle=0)
         if "deliver" in c["ways"]:
             deliver_raw(w, "src", data)
             await w.cmd("A", "NOOP", settle=0)
@@ -467,6 +470,7 @@ async def run_cases(w, cases, seed):
         for how, n in stored:
             o = await observe(w, n, struct, rng, sections=c.get("sections"), nparts=c.get("nparts"))
             recs.append(dict(base, how=how, stored=True, copyof=0, **o))
+            kept.append((n, base, how, c))
         if "copy" in c["ways"] and stored:
             how, n = stored[-1]
             r = await w.cmd("A", f"COPY {n} dst", settle=0)
@@ -480,16 +484,39 @@ async def run_cases(w, cases, seed):
                 out.append(dict(base, how="copy", stored=False, status=r.status,
                                 text=(r.tagged or {}).get("text", "")[:100], closed=bool(r.closed)))
         out.extend(recs)      # the records of one case are contiguous
+    if history and kept:
+        # the same messages later in the life of the folder: every other message
+        # is expunged, the management task packs the folder at its idle poll
+        # (files are renumbered), and everything is fetched again
+        import asyncio
+        await _reopen(w, "src")
+        total = await _count(w)
+        gone = [n for n in range(1, total + 1) if n % 2 == 1]
+        await w.cmd("A", "STORE %s +FLAGS.SILENT (\\Deleted)" % ",".join(map(str, gone)), settle=0)
+        await w.cmd("A", "EXPUNGE", settle=0)
+        for _ in range(4):
+            await asyncio.sleep(31)
+            await w.cmd("A", "NOOP", settle=0)
+        keys = sorted(int(x) for x in os.listdir(w.folder_path("src")) if x.isdigit())
+        packed = keys == list(range(1, len(keys) + 1))
+        for n, base, how, c in kept:
+            if n % 2 == 1:
+                continue
+            o = await observe(w, n // 2, c["struct"], rng, sections=c.get("sections"), nparts=c.get("nparts"))
+            out.append(dict(base, how=how, stored=True, copyof=0,
+                            cls="history/after-pack" if packed else "history/after-expunge",
+                            label=base["label"] + (" (after expunge of every other message%s)" % (" and pack" if packed else "")),
+                            **o))
     return out
 
 
-def execute(cases, seed=0):
-    w = World(seed=seed)
+def execute(cases, seed=0, history=False):
+    w = World(seed=seed, pack_limit=3, pack_ratio=0.8) if history else World(seed=seed)
 
     async def main(loop):
         await w.start()
         try:
-            return await run_cases(w, cases, seed)
+            return await run_cases(w, cases, seed, history=history)
         finally:
             try:
                 await w.stop()
